@@ -228,6 +228,13 @@ func c13gExec(op []string) string {
 	if err != nil {
 		return "harness:" + c13San(err.Error())
 	}
+	return c13gRun(w, pl, c13gLine("ok", op), c13gLine("refused", op))
+}
+
+// c13gRun carries a plan out: the call of the real client method with the plan's arguments against a scripted
+// peer that compares the request with the plan's and answers with the plan's payload. okLine / refusedLine: the
+// lines printed when the call did what the schema says (also used by c13.e2e.enum, c13enum.go).
+func c13gRun(w *c13World, pl *c13gPlan, okLine, refusedLine string) string {
 	c13Calls++
 	key := envLCG(256, 99)
 	peer, err := c13NewPeer(key)
@@ -314,7 +321,7 @@ func c13gExec(op []string) string {
 					return "request-sent-although-the-arguments-have-no-serialisation (" + c13San(pl.noSer) + ") sent=" + c13ShowReq(f.body)
 				case <-time.After(30 * time.Millisecond):
 				}
-				return c13gLine("refused", op)
+				return refusedLine
 			}
 			if o == "" {
 				o = "returned-before-the-answer value=" + c13Short(c13Dump(r.out[0]))
@@ -361,7 +368,7 @@ func c13gExec(op []string) string {
 	if !bytes.Equal(back.Bytes(), pl.payload) || c13Dump(pl.res) != c13Dump(got) {
 		return "result-differs sent=" + c13Short(c13Dump(pl.res)) + " returned=" + c13Short(c13Dump(got))
 	}
-	return c13gLine("ok", op)
+	return okLine
 }
 
 func c13gJudge(op []string, out string) string {
